@@ -673,6 +673,11 @@ func (ex *Exec) builtin(name string, args []Value, c *ssa.CallCommon) Value {
 			if s.Len < n {
 				n = s.Len
 			}
+			if n > 0 {
+				// (scheduler: one scheduling point per operand, on its first element)
+				ex.noteAccess(s.A.E[s.Off], false)
+				ex.noteAccess(d.A.E[d.Off], true)
+			}
 			vals := make([]Value, n)
 			for i := 0; i < n; i++ {
 				vals[i] = ex.load(s.A.E[s.Off+i])
